@@ -135,6 +135,7 @@ extern void (* simk_on_deadlock)(void);	/* poll(-1) with nothing that can ever h
  * loop on a descriptor that stays ready without making progress).
  */
 extern uint64_t simk_busy_limit;
+extern int simk_fd_floor;		/* new descriptors get numbers >= this */
 extern void (* simk_on_busy)(void);
 extern void (* simk_on_world_change)(int fd, const char * what, long val);
 extern uint64_t simk_poll_oversleep_us;	/* max extra sleep added to timeouts */
